@@ -97,6 +97,33 @@ theorem C06.deriv_affine {R : Type} [CommRing R] [DecidableEq R]
   obtain ⟨j, e, _⟩ := deriv_type op x hwf
   exact ⟨j, by simpa [Impl.deriv] using e, OdlModel.Deriv.deriv_linear op hwf hl x j e⟩
 
+/-- Central differences, polynomial world (`_partial`).  Over `R[h]/(h³)`:
+`op(x + h d) = op(x) + h·derivative(x)(d) + c·h²` and
+`op(x - h d) = op(x) - h·derivative(x)(d) + c·h²` with the SAME `c`, so
+`(op(x + h d) - op(x - h d)) / (2h) = derivative(x)(d) + O(h²)`: the error of the central
+difference has no first-order term in `h` — it shrinks at the rate the statement of C06 expects.
+Full statement (not proved): the same with `HasFDerivAt` and an analytic `O(h²)` bound for
+every leaf class (norms, moduli, ufuncs at `ℝ`); missing: the analytic leaf lemmas and a `C²`
+hypothesis per leaf — those classes are covered by the central-difference oracle only. -/
+theorem C06.central_diff_poly_partial {R : Type} [CommRing R] [DecidableEq R]
+    (i : Impl R) (hwf : i.wf = true) (x d : Vec R) :
+    ∃ j, i.deriv x = some j ∧ ∀ k, ∃ c : R,
+      (i.map Trunc3.C).run (fun k => ⟨x k, d k, 0⟩) k = ⟨i.run x k, j.run d k, c⟩ ∧
+      (i.map Trunc3.C).run (fun k => ⟨x k, - d k, 0⟩) k = ⟨i.run x k, - j.run d k, c⟩ := by
+  obtain ⟨j, e, _⟩ := deriv_type i x hwf
+  refine ⟨j, e, fun k => ?_⟩
+  obtain ⟨h1, h2, h3, h4, h5⟩ := central_diff i hwf x d j e k
+  refine ⟨((i.map Trunc3.C).run (fun k => ⟨x k, d k, 0⟩) k).c, ?_, ?_⟩
+  · exact Trunc3.ext' h1 h3 rfl
+  · exact Trunc3.ext' h2 h4 h5.symm
+
+/-- Non-vacuity: `x ↦ x³` on `ℤ¹` at `x = 2`, `d = 1`: `(2 ± h)³ = 8 ± 12 h + 6 h²  (mod h³)`. -/
+example :
+    let i : Impl Int := .power 1 3
+    ((i.map Trunc3.C).run (fun _ => ⟨2, 1, 0⟩) 0 = ⟨8, 12, 6⟩) ∧
+    ((i.map Trunc3.C).run (fun _ => ⟨2, -1, 0⟩) 0 = ⟨8, -12, 6⟩) := by
+  constructor <;> rfl
+
 section ufunc
 open OdlModel.UfuncDeriv OdlModel.Gen.UfuncDeriv
 
